@@ -46,6 +46,7 @@ type c16Case struct {
 	Dollar     bool   `json:"dollar"`             // the file names contain $HOME / ${USER}: they are names, not references
 	NowStyle   int    `json:"nowstyle,omitempty"` // how the Now entry of the configuration file is written: 0 midnight Z, 1 01:30+02:00, 2 22:30-05:00, 3 midnight +00:00
 	CfgStyle   int    `json:"cfgstyle,omitempty"` // layout of the configuration file: 0 plain, 1 lower case with blanks, 2 CRLF, 3 quoted values, 4 comments and indentation
+	CfgRel     bool   `json:"cfgrel,omitempty"`   // the configuration file is named relative to the working directory, through a link to a directory and back up
 	OddNames   int    `json:"oddnames,omitempty"` // 1, 2: the data files have short names relative to the working directory that look like something else ("-", "--", "~", "*", "%s"): they are file names
 	DepthMul   int    `json:"depthmul,omitempty"` // >1: the four distinguishable depth values are 1..4 times this factor (depths far above the default)
 }
@@ -128,10 +129,22 @@ func checkC16(c c16Case, ctx *vCtx) *vFailure {
 	}
 	write := func(p, s string) {
 		if !filepath.IsAbs(p) {
-			p = filepath.Join(cwd, p) // names relative to the working directory of the run
+			p = cwd + "/" + p // names relative to the working directory of the run (not cleaned: the kernel resolves them)
 		}
 		if err := os.WriteFile(p, []byte(s), 0o644); err != nil {
 			vFault("write: %v", err)
+		}
+	}
+	if c.OddNames == 3 || c.CfgRel {
+		// "current" is a symbolic link to a directory two levels down: a name that goes through it and back up
+		// ("current/../x") denotes books/x, not ./x
+		for _, base := range []string{root, cwd} {
+			if err := os.MkdirAll(filepath.Join(base, "books", "2024"), 0o755); err != nil {
+				vFault("mkdir: %v", err)
+			}
+			if err := os.Symlink(filepath.Join("books", "2024"), filepath.Join(base, "current")); err != nil {
+				vFault("symlink: %v", err)
+			}
 		}
 	}
 	oddA, oddB := []string{"-", "~", "*", "%s"}, []string{"@", "--", "$X", "~user"}
@@ -147,6 +160,8 @@ func checkC16(c c16Case, ctx *vCtx) *vFailure {
 			return oddA[k-1]
 		case 2:
 			return oddB[k-1]
+		case 3:
+			return root + "/current/../" + fmt.Sprintf("book-%d.yaml", k)
 		}
 		if c.Dollar {
 			return filepath.Join(root, fmt.Sprintf("book-$HOME-${USER}-%d.yaml", k))
@@ -162,6 +177,8 @@ func checkC16(c c16Case, ctx *vCtx) *vFailure {
 			return oddB[k-1]
 		case 2:
 			return oddA[k-1]
+		case 3:
+			return "current/../" + fmt.Sprintf("log-%d.yaml", k) // relative to the working directory
 		}
 		if c.Dollar {
 			return filepath.Join(root, fmt.Sprintf("log-$PATH-%d.yaml", k))
@@ -176,6 +193,13 @@ func checkC16(c c16Case, ctx *vCtx) *vFailure {
 	}
 	for k := 1; k <= 5; k++ {
 		write(logPath(k), c16LogText(k, layout))
+	}
+	if c.OddNames == 3 {
+		// what the cleaned names would denote holds other content
+		for k := 1; k <= 4; k++ {
+			write(filepath.Join(root, fmt.Sprintf("book-%d.yaml", k)), c16BookText(k%4+1))
+			write(filepath.Join(cwd, fmt.Sprintf("log-%d.yaml", k)), c16LogText(k%4+1, layout))
+		}
 	}
 	write(filepath.Join(root, "empty.yaml"), "")
 	// configuration file
@@ -240,6 +264,14 @@ func checkC16(c c16Case, ctx *vCtx) *vFailure {
 	if c.Channel == "default" {
 		cfgPath = filepath.Join(home, ".hranoprovod", "config")
 	}
+	cfgName := cfgPath // the name handed to the program
+	if c.CfgRel && (c.Channel == "flag" || c.Channel == "env") && !c.CfgFifo && !c.CfgSymlink {
+		// a relative name that goes through a link to a directory and back up: it denotes books/my.conf under the
+		// working directory (the file ./my.conf, if any, is another file)
+		cfgPath = filepath.Join(cwd, "books", "my.conf")
+		cfgName = "current/../my.conf"
+		ctx.Label("config-name-through-link")
+	}
 	if c.Channel != "none" && !c.CfgMissing {
 		if c.CfgFifo && (c.Channel == "flag" || c.Channel == "env") {
 			// the configuration file is a named pipe (what `--config <(...)` hands to a program): its size is 0, its content
@@ -270,9 +302,9 @@ func checkC16(c c16Case, ctx *vCtx) *vFailure {
 	}
 	switch c.Channel {
 	case "flag":
-		flag("config", cfgPath)
+		flag("config", cfgName)
 	case "env":
-		env["HR_CONFIG"] = cfgPath
+		env["HR_CONFIG"] = cfgName
 	}
 	given := func(k int, def string, path func(int) string) string {
 		if k == 5 {
@@ -588,7 +620,8 @@ func genC16(t *rapid.T) c16Case {
 		CfgFifo:    rapid.IntRange(0, 7).Draw(t, "cfgfifo") == 0,
 		NoDBFalse:  rapid.IntRange(0, 5).Draw(t, "nodbfalse") == 0,
 		Dollar:     rapid.IntRange(0, 3).Draw(t, "dollar") == 0,
-		OddNames:   []int{0, 0, 0, 0, 1, 2}[rapid.IntRange(0, 5).Draw(t, "oddnames")],
+		OddNames:   []int{0, 0, 0, 0, 1, 2, 3}[rapid.IntRange(0, 6).Draw(t, "oddnames")],
+		CfgRel:     rapid.IntRange(0, 5).Draw(t, "cfgrel") == 0,
 	}
 	if rapid.IntRange(0, 3).Draw(t, "pad") == 0 {
 		c.CfgPad = []int{3000, 4090, 5000, 20000}[rapid.IntRange(0, 3).Draw(t, "padn")]
